@@ -73,6 +73,15 @@ impl<'t> State<'t> {
         }
     }
 
+    #[cfg(feature = "verif-hooks")]
+    pub(crate) fn verif_sizes(&self) -> (usize, usize, usize) {
+        (
+            self.stack.len(),
+            self.for_loops.len(),
+            self.capture_buffers.len(),
+        )
+    }
+
     pub(crate) fn store_local(&mut self, name: &str, value: Value) {
         if let Some(forloop) = self.for_loops.last_mut() {
             forloop.store(name, value);
